@@ -167,3 +167,61 @@ Proof.
               ltac:(rewrite Hpos1, Hhi1; destruct (to =? -1); lia)) as (A & B & C).
   rewrite A, B, C, Hpos1, Hw. repeat split.
 Qed.
+
+(* ------------------------------------------------------------------ progress of a copy that is watched for a while *)
+
+(* a full block fits strictly inside the wanted range: exactly one block of c_bs bytes is written and the copy goes on *)
+Lemma block_step_full c :
+  healthy c -> c_pending c = PBlock -> 0 <= c_pos c -> c_pos c + c_bs c < hi c ->
+  let r := c_step c CTurn in
+  healthy (fst r) /\ c_pending (fst r) = PBlock /\ c_pos (fst r) = c_pos c + c_bs c /\ hi (fst r) = hi c /\
+  c_content (fst r) = c_content c /\ c_bs (fst r) = c_bs c /\
+  cwritten (snd r) = slice (c_content c) (c_pos c) (c_bs c) /\ cfinished (snd r) = 0%nat /\ cerrors (snd r) = 0%nat.
+Proof.
+  intros Hh Hp Hpos Hfit. destruct Hh as [Hrd Hwr Hst Hbs Hseq].
+  cbn zeta. cbn [c_step]. rewrite Hp.
+  unfold c_next_block. cbn [upd c_stopped f_read c_bs c_content c_pos c_to f_write c_buf c_src_closed c_pending c_connected].
+  rewrite Hst, Hrd, Hwr. cbv zeta.
+  assert (HL : c_pos c + c_bs c < clen c) by (unfold hi in Hfit; destruct (c_to c =? -1); lia).
+  change (clen (upd c (c_pos c) (c_buf c) (c_src_closed c) false PNone (c_connected c))) with (clen c).
+  replace (Z.max 0 (Z.min (c_bs c) (clen c - c_pos c))) with (c_bs c) by lia.
+  set (pos' := c_pos c + c_bs c).
+  assert (Eclip : (negb (c_to c =? -1) && (pos' >? c_to c)) = false).
+  { destruct (c_to c =? -1) eqn:E; [reflexivity|]. cbn. rewrite Z.gtb_ltb. apply Z.ltb_ge.
+    apply Z.eqb_neq in E. unfold hi in Hfit. rewrite (proj2 (Z.eqb_neq _ _) E) in Hfit. subst pos'. lia. }
+  rewrite Eclip.
+  assert (Hdr0 : (c_bs c <? 0) = false) by (apply Z.ltb_ge; lia). rewrite Hdr0. cbn [orb].
+  rewrite firstn_slice by lia.
+  assert (Eend : (pos' >=? clen c) = false) by (rewrite Z.geb_leb; apply Z.leb_gt; subst pos'; lia).
+  rewrite Eend. cbn [orb fst snd].
+  set (c2 := upd _ pos' _ _ _ PBlock _).
+  split; [subst c2; constructor; cbn; first [assumption|reflexivity]|].
+  split; [reflexivity|]. split; [reflexivity|]. split; [reflexivity|]. split; [reflexivity|]. split; [reflexivity|].
+  rewrite cwritten_wr, cfinished_wr, cerrors_wr. repeat split.
+Qed.
+
+(* watched for n turns while n full blocks fit strictly inside the range: exactly the first n * bs bytes of the range have
+   been written, in order, and neither an error nor the completion has been signalled - what family copierbig observes on
+   sources far larger than memory *)
+Theorem block_copy_progress n : forall k c,
+  healthy c -> c_pending c = PBlock -> 0 <= c_pos c -> c_pos c + Z.of_nat n * c_bs c < hi c ->
+  let l := snd (c_run k c (turns n)) in
+  cwritten l = slice (c_content c) (c_pos c) (Z.of_nat n * c_bs c) /\ cfinished l = 0%nat /\ cerrors l = 0%nat.
+Proof.
+  induction n as [|n IH]; intros k c Hh Hp Hpos Hfit.
+  - cbn. repeat split.
+  - cbn zeta. cbn [turns]. rewrite c_run_cons. cbn [fst snd].
+    assert (Hbs : 1 <= c_bs c) by (destruct Hh; assumption).
+    assert (Hfit1 : c_pos c + c_bs c < hi c) by (rewrite Nat2Z.inj_succ in Hfit; nia).
+    destruct (block_step_full c Hh Hp Hpos Hfit1) as (Hh2 & Hp2 & Hpos2 & Hhi2 & Hc2 & Hb2 & A & B & C).
+    set (c2 := fst (c_step c CTurn)) in *.
+    assert (Hfit2 : c_pos c2 + Z.of_nat n * c_bs c2 < hi c2) by (rewrite Hpos2, Hb2, Hhi2; rewrite Nat2Z.inj_succ in Hfit; nia).
+    destruct (IH (k + 1) c2 Hh2 Hp2 ltac:(rewrite Hpos2; lia) Hfit2) as (A' & B' & C').
+    change (CMark k :: ?x ++ ?y) with ([CMark k] ++ x ++ y).
+    rewrite !cwritten_app, !cfinished_app, !cerrors_app, A, B, C, A', B', C', Hc2, Hpos2, Hb2.
+    change (cwritten [CMark k]) with (@nil byte). cbn [app Nat.add cfinished cerrors filter length].
+    split; [|split; reflexivity].
+    rewrite Nat2Z.inj_succ. replace (Z.succ (Z.of_nat n) * c_bs c) with (c_bs c + Z.of_nat n * c_bs c) by lia.
+    apply slice_app; try lia; try nia.
+    unfold hi, clen in *. destruct (c_to c =? -1); lia.
+Qed.
